@@ -242,6 +242,104 @@ end core
 section field
 variable {K : Type} [Field K] [LinearOrder K] [IsStrictOrderedRing K]
 
+theorem absK_eq_abs (x : K) : absK x = |x| := by
+  unfold absK
+  split_ifs with h
+  · exact (abs_of_neg h).symm
+  · exact (abs_of_nonneg (not_lt.mp h)).symm
+
+theorem maxOf_mem (init : K) (l : List K) : maxOf init l = init ∨ maxOf init l ∈ l := by
+  induction l generalizing init with
+  | nil => exact Or.inl rfl
+  | cons a t ih =>
+    simp only [maxOf, List.foldl_cons] at ih ⊢
+    split
+    · rcases ih a with h | h
+      · exact Or.inr (by rw [h]; exact List.mem_cons_self)
+      · exact Or.inr (List.mem_cons_of_mem _ h)
+    · rcases ih init with h | h
+      · exact Or.inl h
+      · exact Or.inr (List.mem_cons_of_mem _ h)
+
+theorem maxOf_le (init b : K) (l : List K) (h0 : init ≤ b) (h : ∀ x ∈ l, x ≤ b) : maxOf init l ≤ b := by
+  induction l generalizing init with
+  | nil => exact h0
+  | cons a t ih =>
+    simp only [maxOf, List.foldl_cons] at ih ⊢
+    split
+    · exact ih a (h a List.mem_cons_self) (fun x hx => h x (List.mem_cons_of_mem _ hx))
+    · exact ih init h0 (fun x hx => h x (List.mem_cons_of_mem _ hx))
+
+theorem maxAbs_nonneg (v : M3 K) : 0 ≤ maxAbs v := maxOf_ge_init 0 _
+
+theorem abs_le_maxAbs (v : M3 K) (x : K) (hx : x ∈ v.toList) : |x| ≤ maxAbs v := by
+  rw [← absK_eq_abs]
+  exact maxOf_ge_mem 0 _ _ (List.mem_map_of_mem hx)
+
+theorem zeroSmall_toList (tiny : K) (v : M3 K) :
+    (zeroSmall tiny v).toList = v.toList.map (zeroIfSmall tiny (maxAbs v)) := rfl
+
+theorem zeroIfSmall_cases (tiny m x : K) :
+    (zeroIfSmall tiny m x = 0 ∧ absK (x / m) ≤ tiny) ∨ (zeroIfSmall tiny m x = x ∧ tiny < absK (x / m)) := by
+  unfold zeroIfSmall
+  split_ifs with h
+  · exact Or.inl ⟨rfl, h⟩
+  · exact Or.inr ⟨rfl, not_le.mp h⟩
+
+/-- the clean-up never changes the largest component. -/
+theorem maxAbs_zeroSmall (tiny : K) (h1 : tiny < 1) (v : M3 K) : maxAbs (zeroSmall tiny v) = maxAbs v := by
+  apply le_antisymm
+  · -- entries only shrink
+    unfold maxAbs
+    rw [zeroSmall_toList]
+    apply maxOf_le _ _ _ (maxAbs_nonneg v)
+    intro y hy
+    simp only [List.mem_map] at hy
+    obtain ⟨z, ⟨x, hx, rfl⟩, rfl⟩ := hy
+    rcases zeroIfSmall_cases tiny (maxAbs v) x with ⟨h, _⟩ | ⟨h, _⟩
+    · rw [h, absK_eq_abs, abs_zero]; exact maxAbs_nonneg v
+    · rw [h, absK_eq_abs]; exact abs_le_maxAbs v x hx
+  · -- the largest component itself survives
+    rcases maxOf_mem 0 (v.toList.map absK) with h | h
+    · have : maxAbs v = 0 := h
+      rw [this]; exact maxAbs_nonneg _
+    · simp only [List.mem_map] at h
+      obtain ⟨x, hx, hxm⟩ := h
+      have hm : absK x = maxAbs v := hxm
+      by_cases h0 : maxAbs v = 0
+      · rw [h0]; exact maxAbs_nonneg _
+      · have hpos : 0 < maxAbs v := lt_of_le_of_ne (maxAbs_nonneg v) (Ne.symm h0)
+        have hone : absK (x / maxAbs v) = 1 := by
+          rw [absK_eq_abs, abs_div, ← absK_eq_abs x, hm, abs_of_pos hpos, div_self h0]
+        have hz : zeroIfSmall tiny (maxAbs v) x = x := by
+          rcases zeroIfSmall_cases tiny (maxAbs v) x with ⟨_, h⟩ | ⟨h, _⟩
+          · rw [hone] at h; exact absurd h (not_le.mpr h1)
+          · exact h
+        have hmem : x ∈ (zeroSmall tiny v).toList := by
+          rw [zeroSmall_toList]
+          exact List.mem_map.mpr ⟨x, hx, hz⟩
+        calc maxAbs v = |x| := by rw [← hm, absK_eq_abs]
+          _ ≤ maxAbs (zeroSmall tiny v) := abs_le_maxAbs _ x hmem
+
+/-- **zeroSmall_idem**: the clean-up of the setter is idempotent (`0 ≤ tiny < 1`): a cell that went through the
+    setter once is not changed by going through it again. -/
+theorem zeroSmall_idem (tiny : K) (h0 : 0 ≤ tiny) (h1 : tiny < 1) (v : M3 K) :
+    zeroSmall tiny (zeroSmall tiny v) = zeroSmall tiny v := by
+  have key : ∀ x : K, zeroIfSmall tiny (maxAbs v) (zeroIfSmall tiny (maxAbs v) x) = zeroIfSmall tiny (maxAbs v) x := by
+    intro x
+    rcases zeroIfSmall_cases tiny (maxAbs v) x with ⟨h, _⟩ | ⟨h, hx⟩
+    · rw [h]
+      unfold zeroIfSmall
+      rw [if_pos]
+      rw [zero_div, absK_eq_abs, abs_zero]; exact h0
+    · rw [h]
+      unfold zeroIfSmall
+      rw [if_neg (not_le.mpr hx)]
+  show (⟨⟨_, _, _⟩, ⟨_, _, _⟩, ⟨_, _, _⟩⟩ : M3 K) = _
+  simp only [maxAbs_zeroSmall tiny h1 v]
+  unfold zeroSmall
+  simp only [key]
+
 /-- the clean-up of the setter leaves a matrix alone when no entry is small relative to the largest one. -/
 theorem zeroSmall_eq_self (tiny : K) (v : M3 K)
     (h : ∀ x ∈ v.toList, x = 0 ∨ tiny < absK (x / maxAbs v)) : zeroSmall tiny v = v := by
@@ -254,6 +352,51 @@ theorem zeroSmall_eq_self (tiny : K) (v : M3 K)
   simp only [M3.toList, V3.toList, List.cons_append, List.nil_append, List.mem_cons, List.mem_nil_iff, or_false] at z
   unfold zeroSmall
   ext <;> simp only [] <;> apply z <;> simp
+
+/-- a cell is *clean* when the setter would not change it (every cell held by a `Box` is: it went through the setter). -/
+def Clean (tiny : K) (c : CSys K) : Prop := zeroSmall tiny c.box.vects = c.box.vects
+
+/-- **clean_stepC**: every operation keeps the cell of the object clean. -/
+theorem clean_stepC (P : Params K) (h0 : 0 ≤ P.tiny) (h1 : P.tiny < 1) (c : CSys K) (hc : Clean P.tiny c) (op : Op K) :
+    Clean P.tiny (stepC P c op).1 := by
+  have hs : ∀ (c' : CSys K) (v : M3 K) (o : V3 K), Clean P.tiny (c'.setBox P.tiny v o) := by
+    intro c' v o
+    exact zeroSmall_idem P.tiny h0 h1 v
+  have hr : Clean P.tiny c.recip.2 := by
+    unfold Clean CSys.recip
+    cases c.cache <;> exact hc
+  cases op with
+  | spos => exact hr
+  | wrap => exact hs _ _ _
+  | rebuild =>
+    unfold stepC
+    cases hb : c.rebuild P with
+    | none => exact hr
+    | some c' =>
+      simp only []
+      unfold CSys.rebuild at hb
+      cases ha : abcBox? P.sqrt c.getSpos.2.box.vects with
+      | none => simp [ha] at hb
+      | some b2 =>
+        simp only [ha, Option.some.injEq] at hb
+        rw [← hb]
+        exact hs _ _ _
+  | normalize =>
+    unfold stepC
+    cases c.normalizeC P <;> exact hc
+  | boxSet scale v o =>
+    cases scale
+    · exact hs _ _ _
+    · exact hs _ _ _
+  | setVects v => exact zeroSmall_idem P.tiny h0 h1 v
+  | setOrigin o => exact hc
+  | setPbc p => exact hc
+
+theorem clean_runC (P : Params K) (h0 : 0 ≤ P.tiny) (h1 : P.tiny < 1) (ops : List (Op K)) (c : CSys K)
+    (hc : Clean P.tiny c) : Clean P.tiny (runC P c ops).1 := by
+  induction ops generalizing c with
+  | nil => exact hc
+  | cons op ops ih => exact ih _ (clean_stepC P h0 h1 c hc op)
 
 end field
 
